@@ -344,4 +344,81 @@ theorem lexes_render (l : List (CT × List Char)) : ∀ (g0 : List Char), gapV .
     have h2 := afterGap_length ct.2 g
     simp only [List.length_append]; omega
 
+/-! ## token classes: lexing up to spelling (`sameTok`) -/
+
+/-- pulling tokens from `s`, each in the listed context, yields SPELLINGS of the listed (canonical) tokens, then the end -/
+inductive LexesC : List Char → List CT → Prop
+  | nil {s : List Char} : next .top s = some (.eof, []) → LexesC s []
+  | cons {s r : List Char} {c : Ctx} {a t : Tok} {ts : List CT} :
+      a ≠ .eof → next c s = some (a, r) → r.length < s.length → sameTok a t = true → LexesC r ts → LexesC s ((c, t) :: ts)
+
+theorem LexesC.length_le {s : List Char} {ts : List CT} (h : LexesC s ts) : ts.length ≤ s.length := by
+  induction h with
+  | nil _ => simp
+  | cons _ _ hl _ _ ih => simp only [List.length_cons]; omega
+
+theorem LexesC.cons_inv {s : List Char} {c : Ctx} {t : Tok} {ts : List CT} (h : LexesC s ((c, t) :: ts)) :
+    ∃ a r, next c s = some (a, r) ∧ sameTok a t = true ∧ LexesC r ts := by
+  cases h with
+  | cons _ hn _ hs hr => exact ⟨_, _, hn, hs, hr⟩
+
+theorem LexesC.nil_inv {s : List Char} (h : LexesC s []) : next .top s = some (.eof, []) := by
+  cases h with
+  | nil hn => exact hn
+
+theorem sameTok_refl (t : Tok) : sameTok t t = true := by simp [sameTok]
+
+/-- a text that lexes to a spelling of `ts` lexes to `ts` up to spelling -/
+theorem lexesC_of_spells {s : List Char} {as : List CT} (h : Lexes s as) : ∀ (ts : List CT), spellsB as ts = true → LexesC s ts := by
+  induction h with
+  | nil hn =>
+    intro ts hs
+    cases ts with
+    | nil => exact .nil hn
+    | cons _ _ => simp [spellsB] at hs
+  | cons hne hn hl _ ih =>
+    intro ts hs
+    cases ts with
+    | nil => simp [spellsB] at hs
+    | cons ct ts' =>
+      obtain ⟨c', t⟩ := ct
+      simp only [spellsB, Bool.and_eq_true, beq_iff_eq] at hs
+      obtain ⟨⟨hc, hst⟩, hr⟩ := hs
+      subst hc
+      exact .cons hne hn hl hst (ih ts' hr)
+
+theorem spellsB_refl (ts : List CT) : spellsB ts ts = true := by
+  induction ts with
+  | nil => rfl
+  | cons ct r ih => obtain ⟨c, t⟩ := ct; simp [spellsB, sameTok_refl, ih]
+
+theorem Lexes.toC {s : List Char} {ts : List CT} (h : Lexes s ts) : LexesC s ts := lexesC_of_spells h ts (spellsB_refl ts)
+
+/-- tokens with one spelling only: literals, `module`, keyword words -/
+theorem sameTok_sym {a : Tok} {c : Char} (h : sameTok a (.sym c) = true) : a = .sym c := by
+  cases a <;> simp_all [sameTok]
+
+theorem sameTok_modkw {a : Tok} (h : sameTok a .modkw = true) : a = .modkw := by
+  cases a <;> simp_all [sameTok]
+
+theorem sameTok_kw {a : Tok} {w : List Char} (hk : (kwOf w).isNone = false) (h : sameTok a (.word w) = true) : a = .word w := by
+  cases a <;> simp_all [sameTok]
+
+theorem sameTok_of_sym {c : Char} {t : Tok} (h : sameTok (.sym c) t = true) : t = .sym c := by
+  cases t <;> simp_all [sameTok]
+
+theorem sameTok_num {a : Tok} {ds : List Char} (h : sameTok a (.num ds) = true) :
+    ∃ ds', a = .num ds' ∧ numVal ds' = numVal ds := by
+  cases a with
+  | num ds' =>
+    refine ⟨ds', rfl, ?_⟩
+    simp only [sameTok, Bool.or_eq_true, beq_iff_eq, Bool.and_eq_true] at h
+    rcases h with h | h
+    · cases h; rfl
+    · exact h.2
+  | _ => simp_all [sameTok]
+
+theorem sameTok_tokName {a t : Tok} (h : sameTok a t = true) : tokName a = tokName t := by
+  cases a <;> cases t <;> simp_all [sameTok, tokName]
+
 end KV.VerilogText
